@@ -103,7 +103,7 @@ func ruleBlankFlagCarriedOver(w *World, r *Report) {
 				}
 			}
 		}
-		if consumer {
+		if consumer || w.onlyCalledByBlankFlagConsumers(fn, 0) {
 			continue
 		}
 		for _, p := range pairs {
@@ -202,4 +202,37 @@ func hasMethodT(t interface{}, name string) bool {
 		}
 	}
 	return false
+}
+
+// onlyCalledByBlankFlagConsumers: every module caller of fn is the consumer of the flag (stores List.IsTight) or is
+// itself only called by consumers — a helper carved out of the consumer runs after the decision, like the code it
+// was carved from.
+func (w *World) onlyCalledByBlankFlagConsumers(fn *ssa.Function, depth int) bool {
+	if depth > 3 {
+		return false
+	}
+	callers := w.CG().In[fn]
+	n := 0
+	for _, c := range callers {
+		if !w.InModule(c) {
+			continue
+		}
+		n++
+		stores := false
+		for _, b := range c.Blocks {
+			for _, ins := range b.Instrs {
+				if st, ok := ins.(*ssa.Store); ok {
+					if fa, ok := st.Addr.(*ssa.FieldAddr); ok {
+						if _, f := fieldOfAddr(fa); f != nil && f.Name() == "IsTight" {
+							stores = true
+						}
+					}
+				}
+			}
+		}
+		if !stores && !w.onlyCalledByBlankFlagConsumers(c, depth+1) {
+			return false
+		}
+	}
+	return n > 0
 }
